@@ -236,21 +236,28 @@ class ControllerLoop(object):
       self.alive = False
       self.died = "escaped:" + type(e).__name__
 
-  def feed(self, name, data, eof=False):
-    """make `data` readable on connection `name` and let the loop handle it; returns outcome dict"""
+  def feed(self, name, data, eof=False, also=None):
+    """make `data` readable on connection `name` and let the loop handle it; returns outcome dict.
+    also = (name2, data2): the other connection becomes readable in the SAME select round (listed after `name`)"""
     s = self.socks[name]
     con = self.cons[name]
     before = {n: len(self.delivered[n]) for n in self.names}
     s.inq += data
     s.eof = eof
+    s2 = con2 = None
+    if also is not None:
+      s2, con2 = self.socks[also[0]], self.cons[also[0]]
+      s2.inq += also[1]
     out = {"diverged": False}
     b = Budget()
     try:
       with b:
         guard = 0
-        while self.alive and (s.inq or eof) and not s.closed and guard < 64:
+        while self.alive and guard < 64 and (((s.inq or eof) and not s.closed) or
+                                             (s2 is not None and s2.inq and not s2.closed)):
           guard += 1
-          self._send(([con], [], []))
+          ready = [c for c, k in ((con, s), (con2, s2)) if k is not None and not k.closed and (k.inq or (k is s and eof))]
+          self._send((ready, [], []))
     except Diverged:
       pass
     if b.tripped:
